@@ -181,6 +181,19 @@ fn check(case: &Case, ev: &mut CaseEv) -> CheckResult {
         }
     }
 
+    // spatial inputs handed over as flat vectors (a representation the first convolution / deconvolution / max-pool
+    // accepts): predict_batch must still return exactly predict of each input
+    if spec.input.len() == 3 && !matches!(spec.layers[0], LayerSpec::Feedback { .. }) && case.connects == 0 && (case.dseed >> 5) % 3 == 0 {
+        let flats: Vec<Tensor> = xs.iter().map(|x| Tensor::single(tens::flat(x))).collect();
+        let fr: Vec<&Tensor> = flats.iter().collect();
+        let single: Vec<Tensor> = catch(|| flats.iter().map(|x| net.predict(x)).collect::<Vec<Tensor>>()).map_err(|p| Fail::new(format!("predict panicked on a flat sample of a {:?} input: {}", spec.input, p)))?;
+        let pbf = catch(|| net.predict_batch(&fr)).map_err(|p| Fail::new(format!("predict_batch panicked on {} flat samples of a {:?} input: {}", case.n, spec.input, p)))?;
+        ensure!(pbf.len() == case.n, "predict_batch returned {} outputs for {} flat inputs", pbf.len(), case.n);
+        for i in 0..case.n {
+            ensure!(tens::first_bit_diff(&tens::flat(&pbf[i]), &tens::flat(&single[i])).is_none(), "predict_batch output {} of {} differs from predict of input {} when the {:?} samples are given as flat vectors", i, case.n, i, spec.input);
+        }
+        ev.class("spatial samples given flat");
+    }
     // validate
     let (vl, va) = catch(|| net.validate(&xr, &tr, case.tol)).map_err(|p| Fail::new(format!("validate panicked on {} samples: {}", case.n, p)))?;
     // the rule applied by the harness to the first `m` samples: (loss sum, |loss| sum, accuracy interval, both outcomes present)
@@ -283,7 +296,7 @@ impl Prop for C12 {
         Some(3)
     }
     fn rule(&self) -> String {
-        "tape-decoded network (1-2 generated layers of any kind incl. feedback blocks + a final dense layer (1-5 outputs, one case in 25: 17-130) with soft-max or another activation; in one case of four the output activation is changed afterwards with set_activation; in one case of three up to three skip connections, chains included, are added), objective of 7, tolerance in {0, 1e-6, 1e-3, 0.1, 1, 1e30}, N in {1, 2, 63, 64, 65, 127, 128, 129, 200} or random 1..300; targets derived from the predictions so that components lie exactly on / at the tolerance / inside / outside it and one-hot or soft (peak often below 0.5) targets agree or disagree with the arg-max; inputs independent O(1), or (1/8) a fine sweep with consecutive inputs a few ulp apart, or (1/8) of magnitude 1e-6. Oracle from public pieces: loss = mean of objective(predict(x), t) (order-free tolerance), accuracy interval by the stated rule (components at exactly the tolerance and arg-max ties may count either way), predict_batch[i] == predict(x_i) bitwise in order, predict == last activation of forward; a second validate call on a prefix of the data (fewer samples, same network object) is held to the same rule. Non-trivial: N > 64, N mod 64 != 0 and both scoring outcomes present. Distinct = (architecture, objective, tolerance, N).".into()
+        "tape-decoded network (1-2 generated layers of any kind incl. feedback blocks + a final dense layer (1-5 outputs, one case in 25: 17-130) with soft-max or another activation; in one case of four the output activation is changed afterwards with set_activation; in one case of three up to three skip connections, chains included, are added), objective of 7, tolerance in {0, 1e-6, 1e-3, 0.1, 1, 1e30}, N in {1, 2, 63, 64, 65, 127, 128, 129, 200} or random 1..300; targets derived from the predictions so that components lie exactly on / at the tolerance / inside / outside it and one-hot or soft (peak often below 0.5) targets agree or disagree with the arg-max; inputs independent O(1), or (1/8) a fine sweep with consecutive inputs a few ulp apart, or (1/8) of magnitude 1e-6. Oracle from public pieces: loss = mean of objective(predict(x), t) (order-free tolerance), accuracy interval by the stated rule (components at exactly the tolerance and arg-max ties may count either way), predict_batch[i] == predict(x_i) bitwise in order, predict == last activation of forward; for spatial inputs the samples are in a third of the cases also handed to predict / predict_batch as flat vectors; a second validate call on a prefix of the data (fewer samples, same network object) is held to the same rule. Non-trivial: N > 64, N mod 64 != 0 and both scoring outcomes present. Distinct = (architecture, objective, tolerance, N).".into()
     }
     fn run_case(&self, tape: &[u32], ev: &mut CaseEv) -> CheckResult {
         check(&decode(tape), ev)
